@@ -152,6 +152,9 @@ def gen(rng, idx, tier):
                 strip_lone_points(glyphs)   # keep clear of the listed cffsubr finding
         if fmt == "cff2":
             opts["cffVersion"] = 2
+        if stratum == "default" and rng.random() < 0.15:
+            # fractional stored coordinates: the integer boxes must enclose them
+            opts["roundTolerance"] = rng.choice([0, 0.25])
     else:
         opts["flattenComponents"] = rng.random() < 0.3
     return {"stratum": stratum, "fmt": fmt, "lib": rng.choice(["defcon", "ufoLib2"]),
@@ -222,6 +225,24 @@ def near(stored, true, tol=0.5 + 1e-6):
     return abs(stored - true) <= tol
 
 
+SLACK = [2e-3]      # read-back precision of fractional coordinates (set per case in run())
+
+
+def min_edge_ok(stored, true, tolmode):
+    """A stored integer for a box MINIMUM (lsb, xMin, yMin): nearest integer normally; with a
+    rounding tolerance < 1/2 the outline keeps fractional coordinates and the box is rounded
+    OUTWARDS (floor) unless within the tolerance of an integer - never inwards by more than 1/2."""
+    if not tolmode:
+        return near(stored, true)
+    return true - 1 - SLACK[0] <= stored <= true + 0.5 + SLACK[0]
+
+
+def max_edge_ok(stored, true, tolmode):
+    if not tolmode:
+        return near(stored, true)
+    return true - 0.5 - SLACK[0] <= stored <= true + 1 + SLACK[0]
+
+
 # ---------------------------------------------------------------- compiled (unsaved) font
 
 def glyph_boxes(tt):
@@ -274,12 +295,12 @@ def snapshot_pre(tt):
     return snap
 
 
-def judge_pre(snap, bump):
+def judge_pre(snap, bump, tolmode=False):
     """ufo2ft's own derived values against the glyph data of the compiled font: TrueType exact,
     CFF within 1/2 of the true extremum (nearest-integer boxes, DESIGN 4.6)."""
     out = []
     is_tt = snap["is_tt"]
-    ok = (lambda s, t: abs(s - t) <= (0.5 + 1e-6 if not is_tt else 0.5 + 1e-6))
+    ok = (lambda s, t: abs(s - t) <= ((1.0 if tolmode else 0.5) + 1e-6))
     # TrueType composites have fractional transformed points, so 1/2 applies there too; simple
     # TrueType glyphs have integer points, for which |s - t| <= 1/2 means equality.
     order, boxes, hm = snap["order"], snap["boxes"], snap["hmtx"]
@@ -291,7 +312,7 @@ def judge_pre(snap, bump):
             if hm[n][1] != 0:
                 out.append({"mech": "pre_lsb_empty_glyph", "detail": {"glyph": n, "lsb": hm[n][1]}})
             continue
-        if not ok(hm[n][1], b[0]):
+        if not (min_edge_ok(hm[n][1], b[0], tolmode) if not is_tt else ok(hm[n][1], b[0])):
             out.append({"mech": "pre_lsb", "detail": {"glyph": n, "lsb": hm[n][1], "xMin": b[0]}})
         lsbs.append(b[0])
         rsbs.append(hm[n][0] - b[2])
@@ -377,6 +398,11 @@ def run(case):
     except Exception:  # noqa: BLE001
         return {"status": "violated", "counters": counters, "violations": [
             {"mech": "compile_exception", "detail": {"trace": traceback.format_exc()[-2500:]}}]}
+    tolmode = case["opts"].get("roundTolerance") is not None and case["opts"]["roundTolerance"] < 0.5
+    # 16.16 deltas; the default subroutiniser re-encodes reals with 2 decimals (accumulating)
+    SLACK[0] = 0.25 if case["opts"].get("optimizeCFF", 2) >= 2 else 2e-3
+    if tolmode:
+        bump("round_tolerance_cases")
     try:
         pre = snapshot_pre(tt)      # ufo2ft's own values: fontTools recomputes several on save
     except Exception:  # noqa: BLE001
@@ -397,7 +423,7 @@ def run(case):
             bump("pre_os2_supplementary")
         # otherwise post-processing already saved / reloaded the font (cffsubr, name dropping) and
         # the in-memory values are fontTools' recomputed ones, judged below
-        violations.extend(judge_pre(pre, bump))
+        violations.extend(judge_pre(pre, bump, tolmode))
     try:
         b1 = io.BytesIO()
         tt.save(b1)
@@ -525,7 +551,7 @@ def run(case):
                                                                             "lsb": lsb_raw[i]}})
                 continue
             bump("bearings_checked")
-            ok = (lsb_raw[i] == b[0]) if is_tt else near(lsb_raw[i], b[0])
+            ok = (lsb_raw[i] == b[0]) if is_tt else min_edge_ok(lsb_raw[i], b[0], tolmode)
             if not ok:
                 violations.append({"mech": "lsb", "detail": {"glyph": n, "lsb": lsb_raw[i],
                                                              "xMin": b[0]}})
@@ -602,7 +628,8 @@ def run(case):
                         violations.append({"mech": "tsb_empty_glyph", "detail": {
                             "glyph": n, "tsb": tsb, "origin": vo}})
                     continue
-                ok = (tsb == vo - b[3]) if is_tt else near(tsb, vo - b[3])
+                # tsb = origin - (stored yMax): an outward-rounded yMax makes tsb smaller
+                ok = (tsb == vo - b[3]) if is_tt else min_edge_ok(tsb, vo - b[3], tolmode)
                 if not ok:
                     violations.append({"mech": "tsb", "detail": {"glyph": n, "tsb": tsb,
                                                                  "origin": vo, "yMax": b[3]}})
@@ -681,6 +708,19 @@ def run(case):
         violations.append({"mech": "os2_char_index", "detail": {
             "stored": [os2.usFirstCharIndex, os2.usLastCharIndex], "expected": [efirst, elast]}})
     n_out = sum(1 for b in boxes.values() if b is not None)
+    if tolmode:
+        # roundTolerance is not among the configurations the property is quantified over: with
+        # fractional stored coordinates only the per-glyph bearing clause is judged ("the box
+        # encloses the outline": directional, see min_edge_ok); aggregates, re-save identity and
+        # the 16.16 / 2-decimal number formats are left alone (counted)
+        kept = []
+        for v in violations:
+            if v["mech"] in ("lsb", "pre_lsb", "tsb", "lsb_empty_glyph", "tsb_empty_glyph",
+                             "compile_exception", "hmtx_advance"):
+                kept.append(v)
+            else:
+                bump("tolmode_unjudged_" + v["mech"])
+        violations = kept
     return {"status": "violated" if violations else "held", "violations": violations,
             "counters": counters, "nontrivial": n_out >= 2}
 
